@@ -22,7 +22,7 @@ ASSUMPTIONS = [
     "names longer than 63 characters are only warned about by ufo2ft and are not part of the statement",
 ]
 N = {"quick": (8, 300), "thorough": (16, 1500)}
-FLOORS = {"renamed": 0.5, "collision": 0.1, "illegal-char-in-source": 0.15, "postscriptNames": 0.25, "cff": 0.15}
+FLOORS = {"renamed": 0.229, "collision": 0.073, "illegal-char-in-source": 0.147, "postscriptNames": 0.13, "cff": 0.086}  # a third of the measured frequency: a starving generator is a harness error, sampling noise is not
 
 LONGLIG = "_".join(["A-cy"] * 16)
 NAMEPOOL = ["a", "b", "a.alt", "a.sc", "f_i", "f_f_i", "f_i.alt", "uni0061", "uni0061.1", "u1F600", "uni00610062", "a_b", "A-cy", "x@y", "naïve", "L" * 70,
